@@ -131,7 +131,10 @@ def run_case(args):
         res["problems"].append({"what": f"unparsable output: {e}", "stdout": out[-300:]}); return res
     lines = script.strip().split("\n")
     if len(outs) != len(lines):
-        res["problems"].append({"what": f"{len(lines)} commands, {len(outs)} responses", "stdout": out[-300:]}); return res
+        res["problems"].append({"what": f"{len(lines)} commands, {len(outs)} responses: {out.strip().splitlines()[-1][:160] if out.strip() else ''}",
+                                "stdout": out[-300:],
+                                "match": "no-color-after-pop" if "No color detected for term" in out and "(pop" in script else None})
+        return res
     declared = {d.split()[1] for d in p.decls if d.startswith("(declare-fun") or d.startswith("(declare-const")}
     logic_line = p.set_logic()
     raw = out                      # interpolant texts are taken from the parsed s-expressions, re-printed
